@@ -353,7 +353,7 @@ def oracle(run, case):
             act = head.get("act") if head["k"] == "op" else head["k"]
             if act == "play":
                 inst = {"count": {e: 0 for e in EVS}, "stopped": False, "prev": None, "speed": SPEEDS[play["speed"]],
-                        "loops": play["loops"]}
+                        "loops": play["loops"], "paused": not play["running"]}
                 num, den = inst["speed"]
             if inst is None:
                 if effs or evs:
@@ -363,6 +363,13 @@ def oracle(run, case):
                 inst["speed"] = SPEEDS[act[5:]]
             for e in evs:
                 inst["count"][e] += 1
+            if act == "pause":
+                inst["paused"] = True
+            elif act in ("resume", "advance", "back"):
+                inst["paused"] = False
+            if act == "fire" and inst["paused"] and effs:
+                fails.append(("step-while-paused", {"show": name, "at": head["t"], "obs": obs}))
+                break
             if inst["stopped"] and (effs or "clr" in obs or [e for e in evs if e not in ("paused",)]):
                 fails.append(("effect-after-stop", {"show": name, "at": head["t"], "request": act, "obs": obs}))
                 break
@@ -375,6 +382,14 @@ def oracle(run, case):
                 if act in ("play", "resume", "advance", "back"):
                     if st != head["t"]:
                         fails.append(("step-start-time-not-request-time", {"show": name, "at": head["t"], "obs": obs}))
+                        break
+                    p = inst["prev"]
+                    want_i = None if p is None else (p["idx"] - 1) % total if act == "back" else \
+                        (p["idx"] + 1) % total if act in ("resume", "advance") else None
+                    if act == "play":
+                        want_i = play["start"] - 1
+                    if want_i is not None and idx != want_i:
+                        fails.append(("request-plays-wrong-step", {"show": name, "request": act, "step": idx, "want_step": want_i}))
                         break
                 elif act == "fire":
                     p = inst["prev"]
@@ -396,6 +411,8 @@ def oracle(run, case):
             if c["played"] > 1 or c["stopped"] > 1 or c["completed"] > 1 or c["completed"] > c["stopped"]:
                 fails.append(("event-more-than-once", {"show": name, "at": head["t"], "counts": c}))
                 break
+        if any(d.get("show") == name for _, d in fails):
+            continue        # the walk over this show's log was cut short by the failure above
         if inst is not None and not inst["stopped"]:
             fails.append(("not-stopped-at-end", {"show": name}))
         elif inst is not None and (inst["count"]["stopped"] != 1 or inst["count"]["played"] != 1):
